@@ -24,10 +24,12 @@ class C03(CheckDef):
     monitors = [('LeftRightMon.tla', 'LeftRightMon.cfg'), ('HB.tla', 'HB.cfg')]
     programs = {
         'quick': [('0;0/%s;%s/%s;%s' % ((R,) * 4), {}, 1500, 'random'), ('0;0/0;0/%s;%s/%s' % ((R,) * 3), {}, 1500, 'random'),
-                  ('0;0;0/0;0/2;2;2', {}, 1000, 'pct'), ('0/0/0/%s;%s' % (R, R), {}, 800, 'random')],
+                  ('0;0;0/0;0/2;2;2', {}, 1000, 'pct'), ('0/0/0/%s;%s' % (R, R), {}, 800, 'random'),
+                  ('0;0/%s;%s/%s' % (R, R, R), {'maxthrows': 1}, 700, 'random')],   # a functor throwing in its first or its second invocation
         'thorough': [('0;0/%s;%s/%s;%s' % ((R,) * 4), {}, 25000, 'random'), ('0;0/0;0/%s;%s/%s' % ((R,) * 3), {}, 25000, 'random'),
                      ('0;0;0/0;0/2;2;2', {}, 20000, 'pct'), ('0/0/0/%s;%s' % (R, R), {}, 15000, 'random'),
-                     ('0;0;0/0;0;0/%s;%s;%s/%s;%s;%s' % ((R,) * 6), {}, 25000, 'random'), ('0;0/0;0/2;2/2;2/1;1', {}, 20000, 'pct')],
+                     ('0;0;0/0;0;0/%s;%s;%s/%s;%s;%s' % ((R,) * 6), {}, 25000, 'random'), ('0;0/0;0/2;2/2;2/1;1', {}, 20000, 'pct'), ('0;0/%s;%s/%s' % (R, R, R), {'maxthrows': 1}, 15000, 'random'),
+                     ('0;0;0/0;0/2;2', {'maxthrows': 2}, 10000, 'random')],
     }
     assumptions = ['bounded: TLC results are for the thread/operation counts named in the configs',
                    'sequentially consistent interleavings here; the memory orders of the four control variables are decided under C07',
